@@ -988,197 +988,471 @@ def instance_text(name, assigns):
     return "===INST===\nMETA:\n  TYPE::TEST\n%s:\n%s===END===\n" % (name, body)
 
 
-def run_documents(ctx, have_model):
-    from octave_mcp.core.ast_nodes import Assignment, Block
-    from octave_mcp.core.constraints import ConstraintChain
-    from octave_mcp.core.parser import parse
-    from octave_mcp.core.validator import Validator
-    from octave_mcp.mcp.validate import ValidateTool
-    from octave_mcp.schemas.loader import load_schema_by_name
-    rng = ctx.rng
-    tmp = tempfile.mkdtemp(prefix="c08docs")
-    old = os.getcwd()
-    n_docs = 0
-    lines, metas = [], []
+def srt(pairs):
+    """sorted() that tolerates None next to strings"""
+    return sorted((tuple(x) for x in pairs), key=lambda x: tuple(str(y) for y in x))
+
+
+class DocRunner:
+    """One (schema currently on disk, instance document) observation on the document-level surfaces.
+
+    Three judges per observation, exactly as at chain level:
+      IMPL   octave_validate / octave_write(corrections_only) with schema=<NAME>  -- the surfaces resolve the name themselves
+      MODEL  validate_section of the extracted model, fed with the schema READ FROM THE FILE ON DISK (load_schema(path), never
+             through the by-name resolver) -- and Validator.validate with that same on-disk schema
+      REF    clauses (a) missing REQ, (b) unknown field per policy, (d) per-field chain verdict, from the GENERATED description
+    so a surface that answers for anything but the schema currently bound to the name disagrees with REF and with MODEL."""
+
+    def __init__(self, ctx, have_model):
+        from octave_mcp.core.ast_nodes import Assignment, Block
+        from octave_mcp.core.constraints import ConstraintChain
+        from octave_mcp.core.parser import parse
+        from octave_mcp.core.validator import Validator
+        from octave_mcp.mcp.validate import ValidateTool
+        from octave_mcp.mcp.write import WriteTool
+        from octave_mcp.schemas.loader import load_schema
+        self.ctx, self.have_model = ctx, have_model
+        self.Assignment, self.Block, self.CC, self.parse, self.Validator = Assignment, Block, ConstraintChain, parse, Validator
+        self.load_schema = load_schema
+        self.vtool = ValidateTool()          # ONE tool object for the whole run: in-process history is part of the input
+        self.wtool = WriteTool()
+        from click.testing import CliRunner
+        from octave_mcp.cli.main import cli
+        self.cli, self.cli_runner = cli, CliRunner()
+        self.lines, self.metas = [], []
+        self.n_docs = 0
+        self.witness_done = False
+
+    # ---- surfaces ---------------------------------------------------------------------------------------------------
+    def call(self, surface, name, itext, outdir):
+        """-> ('ok', verrs, warns, status) | ('raised', text) | ('not-parsed',)"""
+        try:
+            if surface == "validate":
+                res = asyncio.run(self.vtool.execute(content=itext, schema=name))
+            elif surface == "write":
+                res = asyncio.run(self.wtool.execute(target_path=os.path.join(outdir, "doc.oct.md"), content=itext, schema=name,
+                                                     corrections_only=True))
+            elif surface == "cli":
+                # `octave validate --schema N --stdin`: as built it consults only builtin dict schemas for the verdict, so REF
+                # makes no demand on it; it is observed for history-independence (same schema text => same answer)
+                r = self.cli_runner.invoke(self.cli, ["validate", "--stdin", "--schema", name], input=itext)
+                m = re.search(r"validation_status: (\w+)", r.output or "")
+                return ("cli", r.exit_code, m.group(1) if m else None)
+            else:
+                raise ValueError(surface)
+        except Exception as e:  # noqa
+            return ("raised", "%s: %s" % (type(e).__name__, e))
+        if res.get("status") != "success":
+            return ("not-parsed",)
+        verrs = [(e.get("code"), e.get("field")) for e in res.get("validation_errors", [])]
+        warns = [(e.get("code"), e.get("field")) for e in res.get("warnings", [])]
+        return ("ok", verrs, warns, res.get("validation_status"))
+
+    def read_instance(self, name, itext, assigns):
+        """what the block really contains after the implementation's own parse (the front end is not under test here)"""
+        doc = self.parse(itext)
+        blocks = [s for s in doc.sections if isinstance(s, self.Block) and s.key == name]
+        if len(blocks) != 1:
+            return doc, None, "no-block"
+        present = {}
+        val = self.Validator(schema=None)
+        for ch_ in blocks[0].children:
+            if isinstance(ch_, self.Assignment):
+                present[ch_.key] = val._to_python_value(ch_.value)
+        if set(present) != {k for k, _ in assigns}:
+            return doc, None, "keys-differ-after-parse"
+        return doc, present, None
+
+    def read_schema(self, schema_file, fields, case):
+        """the schema as the front end reads the file that is on disk NOW (direct file load, no name resolution)"""
+        try:
+            sd = self.load_schema(schema_file)
+        except Exception as e:  # noqa
+            sd = None
+            case = dict(case, error="%s: %s" % (type(e).__name__, e))
+        if sd is None or set(sd.fields) != {f for f, _ in fields}:
+            self.ctx.property_failure(case, "generated schema is not read back with its fields")
+            return None
+        return sd
+
+    # ---- REF clauses on one surface ------------------------------------------------------------------------------------
+    def ref_clauses(self, surface, case, name, policy, fields, sd, present, verrs, warns, status, is_witness=False):
+        ctx = self.ctx
+        eff_policy = policy if policy in ("REJECT", "WARN", "IGNORE") else "REJECT"
+        named = lambda lst, f: [c for c, p in lst if p == "%s.%s" % (name, f)]  # noqa
+        tag = "" if surface == "validate" else surface + ":"
+        # (a) missing required field -> an error naming it
+        for fname, ch in fields:
+            if "REQ" in [kind_of(c) for c in ch] and fname not in present:
+                ctx.hist("doc_clause", tag + "missing-req")
+                if not named(verrs, fname):
+                    ctx.property_failure(dict(case, field=fname, validation_errors=verrs),
+                                         "missing required field produces no error naming it")
+        # (b) unknown fields per policy
+        unknown = sorted(k for k in present if k not in {f for f, _ in fields})
+        other_errors = [c for c, p in verrs if p not in {"%s.%s" % (name, u) for u in unknown}]
+        for u in unknown:
+            ctx.hist("doc_clause", tag + "unknown-" + eff_policy)
+            if eff_policy == "REJECT" and not named(verrs, u):
+                ctx.property_failure(dict(case, field=u, validation_errors=verrs), "unknown field under REJECT produces no error naming it")
+            if eff_policy == "IGNORE" and (named(verrs, u) or named(warns, u)):
+                ctx.property_failure(dict(case, field=u, validation_errors=verrs, warnings=warns), "unknown field under IGNORE is reported")
+            if eff_policy == "WARN" and surface == "write":
+                # octave_write has one channel only: the warning must be there, and nothing but the warning
+                if not named(verrs, u) or any(c != "W001" for c in named(verrs, u)):
+                    ctx.property_failure(dict(case, field=u, validation_errors=verrs), "unknown field under WARN is not reported as the W001 warning only")
+            if eff_policy == "WARN" and surface == "validate":
+                if not named(warns, u):
+                    ctx.property_failure(dict(case, field=u, warnings=warns), "unknown field under WARN produces no warning naming it")
+                bad = named(verrs, u)
+                if bad or (not other_errors and status == "INVALID"):
+                    # classifier of C08-warn-invalid: WARN policy, the entry is the W001 warning itself
+                    fid = "C08-warn-invalid" if all(c == "W001" for c in bad) else None
+                    ctx.property_failure(dict(case, field=u, validation_errors=verrs, validation_status=status),
+                                         "unknown field under WARN is listed in validation_errors / makes the document INVALID", finding=fid)
+                    if is_witness:
+                        self.witness_done = True
+        # (d) per-field verdict: the errors naming a present schema field are the documented verdict of its chain on the value
+        #     the implementation itself read (only when the schema front end reads the chain ON DISK as generated)
+        for fname, ch in fields:
+            v = present.get(fname)
+            if v is None or vkind(v) not in ("bool", "int", "float", "str", "list"):
+                continue
+            fd = sd.fields[fname]
+            real = fd.pattern.constraints.constraints if fd.pattern and fd.pattern.constraints else None
+            try:
+                same = real == self.CC.parse("∧".join(text_of(c) for c in ch)).constraints
+            except Exception:  # noqa
+                same = False
+            if not same:
+                ctx.hist("doc_clause", tag + "field-chain-not-read-as-generated")
+                continue
+            want, wcodes = ref_chain(ch, v)
+            got_codes = named(verrs, fname)
+            ctx.hist("doc_clause", tag + "field-verdict-" + {True: "accept", False: "reject", None: "undecided"}[want])
+            fcase = dict(case, field=fname, field_chain="∧".join(text_of(c) for c in ch), field_value=vrepr(v),
+                         field_value_kind=vkind(v), field_errors=got_codes, documented=want, validation_errors=verrs)
+            if want is True and got_codes:
+                ctx.property_failure(fcase, "document field accepted by its documented chain semantics gets errors %s" % got_codes)
+            elif want is False and not got_codes:
+                ctx.property_failure(fcase, "document field rejected by its documented chain semantics gets no error naming it")
+            elif want is False and wcodes == "conflict" and any(c != CODE["CONFLICT"] for c in got_codes):
+                ctx.property_failure(fcase, "document field with a conflicting chain does not report only E999")
+            elif want is False and isinstance(wcodes, list) and got_codes != wcodes:
+                ctx.property_failure(dict(fcase, documented_codes=wcodes), "document field error codes differ from the first failing member's")
+        # (e) nothing names a field that is neither in the schema on disk nor in the block (an entry left over from another schema)
+        legit = {"%s.%s" % (name, f) for f, _ in fields} | {"%s.%s" % (name, k) for k in present}
+        stray = sorted({p for _, p in verrs if isinstance(p, str) and p.startswith(name + ".") and p not in legit})
+        if stray:
+            ctx.property_failure(dict(case, stray=stray, validation_errors=verrs),
+                                 "validation_errors name fields that are neither in the schema on disk nor in the document")
+
+    # ---- one observation ---------------------------------------------------------------------------------------------------
+    def judge(self, name, policy, fields, assigns, schema_file, outdir, surfaces=("validate",), extra=None, is_witness=False):
+        """-> {surface: canonical result} (for history-independence comparisons)"""
+        ctx = self.ctx
+        itext = instance_text(name, assigns)
+        case = {"schema": schema_text(name, policy, fields), "instance": itext, "schema_name": name}
+        if extra:
+            case.update(extra)
+        out = {}
+        sd = self.read_schema(schema_file, fields, case)
+        if sd is None:
+            return out
+        doc = present = None
+        for surface in surfaces:
+            scase = dict(case, surface=surface)
+            r = self.call(surface, name, itext, outdir)
+            self.n_docs += 1
+            ctx.count()
+            ctx.hist("doc_surface", surface)
+            if r[0] == "raised":
+                ctx.property_failure(scase, "octave_%s raised %s" % (surface, r[1]))
+                continue
+            if r[0] == "cli":
+                out[surface] = [r[1], r[2]]
+                ctx.hist("doc_outcome", "cli:%s" % r[2])
+                continue
+            if r[0] == "not-parsed":
+                ctx.hist("doc_outcome", "not-parsed")
+                out[surface] = "not-parsed"
+                continue
+            _, verrs, warns, status = r
+            out[surface] = [srt(verrs), srt(warns), status]
+            ctx.hist("doc_outcome", status)
+            if doc is None:
+                doc, present, why = self.read_instance(name, itext, assigns)
+                if present is None:
+                    ctx.hist("doc_outcome", why)
+                    return out
+            self.ref_clauses(surface, scase, name, policy, fields, sd, present, verrs, warns, status, is_witness=is_witness)
+            # (c) the whole section against Validator.validate with the schema ON DISK, and against the model
+            direct = self.Validator(schema=None).validate(doc, strict=False, section_schemas={sd.name: sd})
+            impl_set = sorted((e.code, e.field_path, e.severity) for e in direct)
+            if srt(verrs) != srt((c, p) for c, p, _ in impl_set):
+                ctx.correspondence_failure(dict(scase, tool=verrs, validator=impl_set),
+                                           "octave_%s validation_errors differ from Validator.validate with the schema on disk "
+                                           "(model: the tool copies every entry)" % surface)
+            if self.have_model and surface == surfaces[0]:
+                try:
+                    parts = ["doc", enc_str(name), enc_str(sd.policy.unknown_fields if sd.policy else "REJECT"), str(len(sd.fields))]
+                    for fname, fd in sd.fields.items():
+                        cons = fd.pattern.constraints.constraints if fd.pattern and fd.pattern.constraints else None
+                        if cons is None:
+                            parts += [enc_str(fname), "0"]
+                        else:
+                            parts += [enc_str(fname), "1", enc_chain(cons, present.get(fname))]
+                    parts.append(str(len(present)))
+                    for k, v in present.items():
+                        parts += [enc_str(k), oracle_of(v), enc_val(v)]
+                    self.lines.append(" ".join(parts))
+                    # the model is compared with what the SURFACE reported (codes + paths; severities from the direct run)
+                    self.metas.append((scase, impl_set, srt(verrs)))
+                except OutOfModel:
+                    ctx.hist("doc_outcome", "out-of-model")
+        return out
+
+    def flush_model(self):
+        ctx = self.ctx
+        if not (self.have_model and self.lines):
+            return
+        res = run_driver("cst", self.lines)
+        for (case, impl_set, verrs), r in zip(self.metas, res):
+            ctx.count()
+            if r.startswith("!"):
+                ctx.correspondence_failure(dict(case, model=r), "model driver error (document)")
+                continue
+            got = [] if r == "NONE" else sorted(tuple(dec_str(x) for x in e.split(":")) for e in r.split(" "))
+            if got != [tuple(x) for x in impl_set]:
+                ctx.correspondence_failure(dict(case, impl=impl_set, model=got), "Validator._validate_section differs from the model")
+            if srt((c, p) for c, p, _ in got) != verrs:
+                ctx.correspondence_failure(dict(case, surface_errors=verrs, model=got),
+                                           "the surface's validation_errors differ from the model run on the schema on disk")
+        self.lines, self.metas = [], []
+
+
+def gen_schema_fields(rng, by_kind, nf=None):
+    nf = nf or rng.randint(1, 4)
+    fields = []
+    for fi in range(nf):
+        ln = rng.choice([1, 2, 2, 3, 4])
+        ch = [rng.choice(by_kind[rng.choice(KINDS13)]) for _ in range(ln)]
+        if fi == 0 and "REQ" not in [kind_of(c) for c in ch]:
+            ch = [("REQ",)] + [c for c in ch if kind_of(c) != "OPT"][:3]
+        fields.append(("F%d" % fi, ch))
+    return fields
+
+
+def gen_assigns(rng, fields, unknown_names=("X0", "X1")):
+    assigns = []
+    for fname, ch in fields:
+        r = rng.random()
+        if r < 0.3:
+            continue                                   # omitted
+        good = [x for x in DOC_VALUES if ref_chain(ch, x)[0] is True]
+        assigns.append((fname, rng.choice(good) if good and r < 0.75 else rng.choice(DOC_VALUES)))
+        if r > 0.9:
+            assigns.append((fname, rng.choice(DOC_VALUES)))   # duplicated
+    for x in range(rng.choice([0, 0, 1, 2])):
+        assigns.append((unknown_names[x], rng.choice(DOC_VALUES)))     # unknown
+    if rng.random() < 0.2 and assigns:
+        assigns.append(assigns[0])
+    rng.shuffle(assigns)
+    return assigns
+
+
+def doc_by_kind():
     by_kind = {}
     for a in DOC_ATOMS:
         by_kind.setdefault(kind_of(a), []).append(a)
+    return by_kind
+
+
+def run_documents(ctx, runner):
+    """every schema under its own fresh name (no history): generated schemas x instance blocks"""
+    rng = ctx.rng
+    tmp = tempfile.mkdtemp(prefix="c08docs")
+    old = os.getcwd()
+    by_kind = doc_by_kind()
+    n0 = runner.n_docs
     try:
         os.makedirs(os.path.join(tmp, "specs", "schemas"))
         os.chdir(tmp)
-        tool = ValidateTool()
-        witness_done = False
-        n_schemas = ctx.scale(70, 900)
-        for si in range(n_schemas):
+        for si in range(ctx.scale(70, 900)):
             name = "VERIFC08_%d" % si
             policy = POLICIES[si % len(POLICIES)]
-            nf = rng.randint(1, 4)
-            fields = []
-            for fi in range(nf):
-                ln = rng.choice([1, 2, 2, 3, 4])
-                ch = [rng.choice(by_kind[rng.choice(KINDS13)]) for _ in range(ln)]
-                if fi == 0 and "REQ" not in [kind_of(c) for c in ch]:
-                    ch = [("REQ",)] + [c for c in ch if kind_of(c) != "OPT"][:3]
-                fields.append(("F%d" % fi, ch))
+            fields = gen_schema_fields(rng, by_kind)
             if si == 0:   # the committed witness of C08-warn-invalid
                 policy, fields = "WARN", [("NAME", [("REQ",), ("TYPE", "STRING")])]
             if si == 1:   # ENUM exact-match-over-prefix, at document level
                 policy, fields = "REJECT", ENUM_DOC_FIELDS
-            with open(os.path.join(tmp, "specs", "schemas", name.lower() + ".oct.md"), "w") as f:
+            sfile = os.path.join(tmp, "specs", "schemas", name.lower() + ".oct.md")
+            with open(sfile, "w") as f:
                 f.write(schema_text(name, policy, fields))
-            sd = load_schema_by_name(name)
-            if sd is None or set(sd.fields) != {f for f, _ in fields}:
-                ctx.property_failure({"schema": schema_text(name, policy, fields)}, "generated schema is not read back with its fields")
-                continue
-            eff_policy = policy if policy in ("REJECT", "WARN", "IGNORE") else "REJECT"
             ctx.hist("policy", str(policy))
+            surfaces = ("validate", "write") if si % 4 == 1 else ("validate",)
             for ii in range(ctx.scale(8, 10)):
-                assigns = []
-                for fname, ch in fields:
-                    r = rng.random()
-                    if r < 0.3:
-                        continue                                   # omitted
-                    good = [x for x in DOC_VALUES if ref_chain(ch, x)[0] is True]
-                    assigns.append((fname, rng.choice(good) if good and r < 0.75 else rng.choice(DOC_VALUES)))
-                    if r > 0.9:
-                        assigns.append((fname, rng.choice(DOC_VALUES)))   # duplicated
-                for x in range(rng.choice([0, 0, 1, 2])):
-                    assigns.append(("X%d" % x, rng.choice(DOC_VALUES)))     # unknown
-                if rng.random() < 0.2 and assigns:
-                    assigns.append(assigns[0])
-                rng.shuffle(assigns)
+                assigns = gen_assigns(rng, fields)
                 if si == 0 and ii == 0:
                     assigns = [("NAME", "bob"), ("EXTRA", 1)]
                 if si == 1:
                     assigns = list(ENUM_DOC_INSTANCES[ii % len(ENUM_DOC_INSTANCES)])
-                itext = instance_text(name, assigns)
-                case = {"schema": schema_text(name, policy, fields), "instance": itext, "schema_name": name}
-                try:
-                    res = asyncio.run(tool.execute(content=itext, schema=name))
-                except Exception as e:  # noqa
-                    ctx.property_failure(case, "octave_validate raised %s: %s" % (type(e).__name__, e))
-                    continue
-                n_docs += 1
-                ctx.count()
-                ctx.nontrivial(("doc", name, itext))
-                if res.get("status") != "success":
-                    ctx.hist("doc_outcome", "not-parsed")
-                    continue
-                verrs = [(e.get("code"), e.get("field")) for e in res.get("validation_errors", [])]
-                warns = [(e.get("code"), e.get("field")) for e in res.get("warnings", [])]
-                status = res.get("validation_status")
-                ctx.hist("doc_outcome", status)
-                # what the block really contains after the implementation's own parse (front end is not under test here)
-                doc = parse(itext)
-                blocks = [s for s in doc.sections if isinstance(s, Block) and s.key == name]
-                if len(blocks) != 1:
-                    ctx.hist("doc_outcome", "no-block")
-                    continue
-                present = {}
-                val = Validator(schema=None)
-                for ch_ in blocks[0].children:
-                    if isinstance(ch_, Assignment):
-                        present[ch_.key] = val._to_python_value(ch_.value)
-                gen_keys = {k for k, _ in assigns}
-                if set(present) != gen_keys:
-                    ctx.hist("doc_outcome", "keys-differ-after-parse")
-                    continue
-                named = lambda lst, f: [c for c, p in lst if p == "%s.%s" % (name, f)]  # noqa
-                # (a) missing required field -> an error naming it
-                for fname, ch in fields:
-                    if "REQ" in [kind_of(c) for c in ch] and fname not in present:
-                        ctx.hist("doc_clause", "missing-req")
-                        if not named(verrs, fname):
-                            ctx.property_failure(dict(case, field=fname, validation_errors=verrs),
-                                                 "missing required field produces no error naming it")
-                # (b) unknown fields per policy
-                unknown = sorted(k for k in present if k not in {f for f, _ in fields})
-                other_errors = [c for c, p in verrs if p not in {"%s.%s" % (name, u) for u in unknown}]
-                for u in unknown:
-                    ctx.hist("doc_clause", "unknown-" + eff_policy)
-                    if eff_policy == "REJECT" and not named(verrs, u):
-                        ctx.property_failure(dict(case, field=u, validation_errors=verrs), "unknown field under REJECT produces no error naming it")
-                    if eff_policy == "IGNORE" and (named(verrs, u) or named(warns, u)):
-                        ctx.property_failure(dict(case, field=u, validation_errors=verrs, warnings=warns), "unknown field under IGNORE is reported")
-                    if eff_policy == "WARN":
-                        if not named(warns, u):
-                            ctx.property_failure(dict(case, field=u, warnings=warns), "unknown field under WARN produces no warning naming it")
-                        bad = named(verrs, u)
-                        if bad or (not other_errors and status == "INVALID"):
-                            # classifier of C08-warn-invalid: WARN policy, the entry is the W001 warning itself
-                            fid = "C08-warn-invalid" if all(c == "W001" for c in bad) else None
-                            ctx.property_failure(dict(case, field=u, validation_errors=verrs, validation_status=status),
-                                                 "unknown field under WARN is listed in validation_errors / makes the document INVALID", finding=fid)
-                            if si == 0 and ii == 0:
-                                witness_done = True
-                # (d) per-field verdict: the errors naming a present schema field are the documented verdict of its chain on
-                #     the value the implementation itself read (only when the schema front end read the chain as generated)
-                for fname, ch in fields:
-                    v = present.get(fname)
-                    if v is None or vkind(v) not in ("bool", "int", "float", "str", "list"):
-                        continue
-                    fd = sd.fields[fname]
-                    real = fd.pattern.constraints.constraints if fd.pattern and fd.pattern.constraints else None
-                    try:
-                        same = real == ConstraintChain.parse("∧".join(text_of(c) for c in ch)).constraints
-                    except Exception:  # noqa
-                        same = False
-                    if not same:
-                        ctx.hist("doc_clause", "field-chain-not-read-as-generated")
-                        continue
-                    want, wcodes = ref_chain(ch, v)
-                    got_codes = named(verrs, fname)
-                    ctx.hist("doc_clause", "field-verdict-" + {True: "accept", False: "reject", None: "undecided"}[want])
-                    fcase = dict(case, field=fname, field_chain="∧".join(text_of(c) for c in ch), field_value=vrepr(v),
-                                 field_value_kind=vkind(v), field_errors=got_codes, documented=want)
-                    if want is True and got_codes:
-                        ctx.property_failure(fcase, "document field accepted by its documented chain semantics gets errors %s" % got_codes)
-                    elif want is False and not got_codes:
-                        ctx.property_failure(fcase, "document field rejected by its documented chain semantics gets no error naming it")
-                    elif want is False and wcodes == "conflict" and any(c != CODE["CONFLICT"] for c in got_codes):
-                        ctx.property_failure(fcase, "document field with a conflicting chain does not report only E999")
-                    elif want is False and isinstance(wcodes, list) and got_codes != wcodes:
-                        ctx.property_failure(dict(fcase, documented_codes=wcodes), "document field error codes differ from the first failing member's")
-                # (c) correspondence of the whole section with the model (Validator directly: keeps severities)
-                direct = Validator(schema=None).validate(doc, strict=False, section_schemas={sd.name: sd})
-                impl_set = sorted((e.code, e.field_path, e.severity) for e in direct)
-                if sorted(verrs) != sorted((c, p) for c, p, _ in impl_set):
-                    ctx.correspondence_failure(dict(case, tool=verrs, validator=impl_set),
-                                               "octave_validate validation_errors differ from Validator.validate (model: tool copies every entry)")
-                if have_model:
-                    try:
-                        parts = ["doc", enc_str(name), enc_str(sd.policy.unknown_fields if sd.policy else "REJECT"), str(len(sd.fields))]
-                        for fname, fd in sd.fields.items():
-                            cons = fd.pattern.constraints.constraints if fd.pattern and fd.pattern.constraints else None
-                            if cons is None:
-                                parts += [enc_str(fname), "0"]
-                            else:
-                                v = present.get(fname)
-                                parts += [enc_str(fname), "1", enc_chain(cons, v)]
-                        parts.append(str(len(present)))
-                        for k, v in present.items():
-                            parts += [enc_str(k), oracle_of(v), enc_val(v)]
-                        lines.append(" ".join(parts))
-                        metas.append((case, impl_set))
-                    except OutOfModel:
-                        ctx.hist("doc_outcome", "out-of-model")
+                ctx.nontrivial(("doc", name, instance_text(name, assigns)))
+                runner.judge(name, policy, fields, assigns, sfile, os.path.join(tmp, "out"), surfaces, is_witness=(si == 0 and ii == 0))
         if "C08-warn-invalid" in ctx.known:
-            ctx.finding_witness("C08-warn-invalid", witness_done)
-        if have_model and lines:
-            out = run_driver("cst", lines)
-            for (case, impl_set), r in zip(metas, out):
-                ctx.count()
-                if r.startswith("!"):
-                    ctx.correspondence_failure(dict(case, model=r), "model driver error (document)")
-                    continue
-                got = [] if r == "NONE" else sorted(tuple(dec_str(x) for x in e.split(":")) for e in r.split(" "))
-                if got != [tuple(x) for x in impl_set]:
-                    ctx.correspondence_failure(dict(case, impl=impl_set, model=got), "Validator._validate_section differs from the model")
+            ctx.finding_witness("C08-warn-invalid", runner.witness_done)
+        runner.flush_model()
     finally:
         os.chdir(old)
         shutil.rmtree(tmp, ignore_errors=True)
-    ctx.extra["document_cases"] = n_docs
+    ctx.extra["document_cases"] = runner.n_docs - n0
     ctx.sample({"schema_policy": "WARN", "instance_adds": "EXTRA", "observed": "validation_status INVALID, validation_errors [W001 EXTRA]"})
+
+
+# ---- history stream: one schema NAME bound to a sequence of different schemas ------------------------------------------------
+def targeted_history(rng, by_kind):
+    """versions of one schema that differ exactly where a stale answer shows: a field becomes required, a field leaves the
+    schema (unknown under REJECT), RANGE bounds move, ENUM members change, the UNKNOWN_FIELDS policy changes; with documents
+    chosen so that every change flips at least one verdict."""
+    v1 = ("REJECT", [("F0", [("REQ",), ("TYPE", "STRING")]), ("F1", [("OPT",), ("RANGE", 1, 10)]), ("F2", [("ENUM", ["A", "B"])])])
+    v2 = ("REJECT", [("F0", [("REQ",), ("TYPE", "STRING")]), ("F1", [("REQ",), ("RANGE", -5, 5)]), ("F3", [("REQ",), ("TYPE", "NUMBER")])])
+    v3 = ("WARN", [("F0", [("OPT",), ("ENUM", ["ACT", "ACTIVE", "DONE"])]), ("F1", [("RANGE", 0, 0)])])
+    v4 = ("IGNORE", [("F1", [("REQ",), ("RANGE", 0.5, 2.5)]), ("F2", [("REQ",), ("ENUM", ["X"])])])
+    versions = [v1, v2, v3, v4]
+    rng.shuffle(versions)
+    versions.append(versions[0])          # back to the first schema text: same answers as at step 1 are due
+    docs = [[("F0", "abc"), ("F1", 5), ("F2", "A")], [("F0", "abc"), ("F1", -3)], [("F0", "ACT"), ("F1", 0), ("F3", 1)],
+            [("F0", "abc")], [("F1", 1), ("F2", "X")], [("F0", "abc"), ("F1", 11), ("F2", "B"), ("F3", "x")], [("F2", "A"), ("X0", 1)],
+            [("F0", 5), ("F1", 2.5), ("F2", "X"), ("F3", 2.5)]]
+    return versions, docs
+
+
+def random_history(rng, by_kind):
+    n = rng.choice([2, 3, 3, 4])
+    versions = []
+    base = gen_schema_fields(rng, by_kind, nf=rng.randint(2, 4))
+    for k in range(n):
+        if k == 0 or rng.random() < 0.3:
+            fields = base if k == 0 else gen_schema_fields(rng, by_kind, nf=rng.randint(1, 4))
+        else:   # a local edit of the previous version: drop a field, add one, re-draw one chain, toggle REQ/OPT
+            fields = [list(x) for x in versions[-1][1]]
+            fields = [(f, list(ch)) for f, ch in fields]
+            op = rng.choice(["drop", "add", "redraw", "toggle"])
+            if op == "drop" and len(fields) > 1:
+                fields.pop(rng.randrange(len(fields)))
+            elif op == "add":
+                used = {f for f, _ in fields}
+                free = [f for f in ("F0", "F1", "F2", "F3", "F4") if f not in used]
+                if free:
+                    fields.append((free[0], [("REQ",)] + gen_schema_fields(rng, by_kind, nf=1)[0][1][:2]))
+            elif op == "redraw":
+                i = rng.randrange(len(fields))
+                fields[i] = (fields[i][0], gen_schema_fields(rng, by_kind, nf=2)[1][1])
+            else:
+                i = rng.randrange(len(fields))
+                ch = [c for c in fields[i][1] if kind_of(c) not in ("REQ", "OPT")]
+                had_req = any(kind_of(c) == "REQ" for c in fields[i][1])
+                fields[i] = (fields[i][0], ([("OPT",)] if had_req else [("REQ",)]) + ch[:3])
+            fields = [(f, [c for j, c in enumerate(ch) if not (kind_of(c) in ("REQ", "OPT") and kind_of(c) in [kind_of(d) for d in ch[:j]])])
+                      for f, ch in fields]
+        versions.append((rng.choice(POLICIES), fields))
+    if rng.random() < 0.5:
+        versions.append(versions[0])
+    docs = []
+    allf = []
+    for _, fields in versions:
+        for f, ch in fields:
+            allf.append((f, ch))
+    for _ in range(rng.choice([4, 5, 6])):
+        pick = {}
+        for f, ch in allf:        # one chain per field name, drawn among the versions: good for one version, maybe bad for another
+            if f not in pick or rng.random() < 0.5:
+                pick[f] = ch
+        docs.append(gen_assigns(rng, sorted(pick.items()), unknown_names=("F4", "X0")))
+    return versions, docs
+
+
+BIND_MODES = ["in-place", "new-cwd", "in-place", "new-cwd", "unlink-recreate", "other-filename"]
+
+
+def bind_schema(root, step, mode, name, text, state):
+    """Put `text` on the schema search path under `name`; -> (cwd to use, schema file).  in-place: overwrite the file of the
+    previous step; new-cwd: a fresh directory with its own specs/schemas/<name> file (the process chdirs there);
+    unlink-recreate: remove the old file, write a new one; other-filename: <NAME>.oct.md instead of <name>.oct.md (both are
+    documented spellings; the old file is removed)."""
+    if step == 0 or mode == "new-cwd":
+        cwd = os.path.join(root, "cwd%d" % step)
+        os.makedirs(os.path.join(cwd, "specs", "schemas"))
+        sfile = os.path.join(cwd, "specs", "schemas", name.lower() + ".oct.md")
+    else:
+        cwd = state["cwd"]
+        sfile = state["sfile"]
+        if mode in ("unlink-recreate", "other-filename"):
+            os.unlink(sfile)
+            sdir = os.path.dirname(sfile)
+            sfile = os.path.join(sdir, (name if mode == "other-filename" and sfile.endswith(name.lower() + ".oct.md") else name.lower()) + ".oct.md")
+    with open(sfile, "w") as f:
+        f.write(text)
+    state["cwd"], state["sfile"] = cwd, sfile
+    return cwd, sfile
+
+
+def run_schema_history(ctx, runner):
+    """The same schema NAME is bound to a sequence of different generated schemas (file rewritten in place / a fresh cwd with
+    its own specs/schemas file / unlink+recreate / the other documented filename) inside this one process, and the same
+    documents are validated after every rebinding on every surface.  Per step and document: the full 3-way judgement of
+    DocRunner.judge for the schema CURRENTLY on disk; and when a step re-binds a schema text seen earlier in the stream, the
+    surfaces must answer exactly as they did then."""
+    rng = ctx.rng
+    by_kind = doc_by_kind()
+    root = tempfile.mkdtemp(prefix="c08hist")
+    old = os.getcwd()
+    n_streams = ctx.scale(10, 120)
+    n_steps = n_obs = 0
+    n0 = runner.n_docs
+    try:
+        for hi in range(n_streams):
+            name = "VERIFC08_H%d" % hi
+            versions, docs = targeted_history(rng, by_kind) if hi % 2 == 0 else random_history(rng, by_kind)
+            sroot = os.path.join(root, "h%d" % hi)
+            os.makedirs(sroot)
+            state, history, seen = {}, [], {}
+            for step, (policy, fields) in enumerate(versions):
+                mode = "first" if step == 0 else BIND_MODES[(hi + step) % len(BIND_MODES)]
+                text = schema_text(name, policy, fields)
+                cwd, sfile = bind_schema(sroot, step, mode, name, text, state)
+                os.chdir(cwd)
+                history.append({"step": step, "bind": mode, "schema": text})
+                ctx.hist("history_bind", mode)
+                n_steps += 1
+                results = []
+                for di, assigns in enumerate(docs):
+                    extra = {"history": list(history), "history_doc": di,
+                             "note": "same schema name re-bound; every earlier step validated the same documents in this process"}
+                    r = runner.judge(name, policy, fields, assigns, sfile, os.path.join(sroot, "out"), ("validate", "write", "cli"), extra=extra)
+                    results.append(r)
+                    n_obs += 1
+                    ctx.nontrivial(("hist", text, instance_text(name, assigns)))
+                if text in seen:
+                    ctx.hist("history_bind", "rebinds-earlier-text")
+                    for di, (r0, r1) in enumerate(zip(seen[text][1], results)):
+                        if r0 != r1:
+                            ctx.property_failure({"schema_name": name, "history": list(history), "instance": instance_text(name, docs[di]),
+                                                  "first_time": r0, "step_%d" % seen[text][0]: "same schema text", "now": r1},
+                                                 "the same schema text bound to the same name gives different verdicts for the same document later in the process")
+                else:
+                    seen[text] = (step, results)
+            os.chdir(old)
+        runner.flush_model()
+    finally:
+        os.chdir(old)
+        shutil.rmtree(root, ignore_errors=True)
+    ctx.extra["history_streams"] = n_streams
+    ctx.extra["history_steps"] = n_steps
+    ctx.extra["history_step_documents"] = n_obs
+    ctx.extra["history_surface_calls"] = runner.n_docs - n0
+    ctx.sample({"history": "VERIFC08_H0: v1 (F1 OPT RANGE[1,10]) -> rewritten in place as v2 (F1 REQ RANGE[-5,5], F3 REQ) -> ...",
+                "document": "F0::\"abc\" F1::-3", "documented": "step 1: E011 on F1; step 2: E003 on F3 only"})
 
 
 # =====================================================================================================
@@ -1227,10 +1501,40 @@ def run_corpus(ctx):
     ctx.extra["corpus_cases"] = n
 
 
+def replay_history(c, what):
+    """re-run a recorded schema history in THIS process: bind each recorded schema text to the name in the recorded way,
+    validate the recorded instance on the recorded surface after every step; 1 = the last answer is the recorded one."""
+    class _Ctx:   # DocRunner only needs a sink here
+        def __getattr__(self, _):
+            return lambda *a, **k: None
+    runner = DocRunner(_Ctx(), False)
+    name, surface = c["schema_name"], c.get("surface", "validate")
+    root = tempfile.mkdtemp(prefix="c08replay")
+    old = os.getcwd()
+    last = None
+    try:
+        state = {}
+        for h in c["history"]:
+            cwd, sfile = bind_schema(root, h["step"], h["bind"], name, h["schema"], state)
+            os.chdir(cwd)
+            last = runner.call(surface, name, c["instance"], os.path.join(root, "out"))
+            print("step %d (%s): octave_%s -> %s" % (h["step"], h["bind"], surface, list(last[1:]) if last[0] == "ok" else list(last)))
+    finally:
+        os.chdir(old)
+        shutil.rmtree(root, ignore_errors=True)
+    rec = c.get("validation_errors", c.get("tool"))
+    print("recorded: %s   (%s)" % (rec, what))
+    if rec is None or last is None or last[0] != "ok":
+        return 2
+    return 1 if srt(last[1]) == srt(rec) else 0
+
+
 def replay(ctx, case):
     """./check C08 --replay <file>: re-run a recorded failing chain case on the implementation; 1 = still as recorded."""
     from octave_mcp.core.constraints import ConstraintChain
     c = case.get("case", case)
+    if "history" in c and "instance" in c:
+        return replay_history(c, case.get("what"))
     if "chain" not in c:
         print("replay: document cases are re-run by the generator (seed %s); recorded: %s" % (case.get("seed"), case.get("what")))
         return 2
@@ -1259,7 +1563,9 @@ def run(ctx):
     values, _ = run_chains(ctx, have_model)
     run_enum_focus(ctx, have_model)
     run_side_checks(ctx, have_model, values)
-    run_documents(ctx, have_model)
+    runner = DocRunner(ctx, have_model)
+    run_documents(ctx, runner)
+    run_schema_history(ctx, runner)
     ctx.assumptions += [
         "str(v) of lists/dicts/literal zones, repr(float), float(str), re.match verdicts and datetime.fromisoformat verdicts are "
         "oracles computed by CPython 3.12 and passed with each case (Section-style inputs of the model, never axioms)",
